@@ -10,6 +10,14 @@ def _f(mod, fn):
 
 
 PROPS = {
+    'C02': {
+        'lean': 'C02',
+        'corr': [_f('comp_download', 'corr'), _f('comp_defer', 'corr')],
+        'oracles': [_f('comp_download', 'oracle')],
+        'modelled': ['download.GetObjectTask._main / ImmediatelyWriteIOGetObjectTask', 'download.DownloadChunkIterator',
+                     'utils.StreamReaderProgress', 'download.DeferQueue',
+                     'legacy and process-pool loops: judged end to end only'],
+    },
     'C09': {
         'lean': 'C09',
         'corr': [_f('comp_chunk', 'corr')],
